@@ -94,7 +94,7 @@ def cases(tier, seed):
     n1, n2 = (500, 60) if tier == "quick" else (6000, 600)
     for _ in range(n1):
         i += 1
-        c = rc.gen_case(rng, "v1", tier)
+        c = rc.gen_case(rng, "v1", tier, force={"evt": True})  # incl. rail actions that return a value AND an event of their own
         yield dict(c, id=i)
     for _ in range(n2):
         i += 1
@@ -105,6 +105,11 @@ def cases(tier, seed):
 def run_case(case):
     r = run_case_for(TAG, case)
     spec = case["spec"]
+    if r.get("verdict") == "violated" and spec.get("ver") == "v1":
+        t_fail = (r.get("witness") or {}).get("turn")
+        shapes = spec.get("in_shapes") or []
+        turns_ = range(0, (t_fail or 0) + 1) if r.get("what") == "earlier-masked-original-text-in-later-prompt" else [t_fail]
+        r["evt_rewrite_in_failing_turn"] = any(s_ == "in" and t_ in turns_ and v_ == "rewrite" and idx < len(shapes) and shapes[idx] == "evt" for s_, t_, idx, v_ in case["V"])
     vin = [v for s, t, idx, v in case["V"] if s == "in"]
     late_reject = any(v == "block" and idx > 0 for s, t, idx, v in case["V"] if s == "in")
     r["nontrivial"] = (spec["k"] >= 2 and (late_reject or "rewrite" in vin)) or case["turns"] >= 2
@@ -112,4 +117,8 @@ def run_case(case):
 
 
 def classify(r):
+    if r.get("ver") == "v1" and r.get("evt_rewrite_in_failing_turn") and r.get("what") in ("original-text-in-prompt-after-rewrite", "input-rail-calls-differ", "earlier-masked-original-text-in-later-prompt"):
+        # structural: in the failing turn a rail of the `evt` shape (its action returns the rewritten text as return value
+        # together with an event of its own) rewrote the message
+        return "rewrite-lost-when-rail-action-returns-events"
     return "%s:%s" % (r.get("ver"), r.get("what"))
